@@ -258,7 +258,7 @@ def regenerate_lean_programs() -> dict:
     tool = common.VERIF / 'tools' / 'gen_c10_programs.py'
     if not tool.exists():
         return {'skipped': 'tools/gen_c10_programs.py missing'}
-    env = dict(os.environ, PYTHONPATH=str(common.VERIF), TQDM_DISABLE='1')
+    env = dict(os.environ, PYTHONPATH=os.pathsep.join([x for x in (os.environ.get('PYTHONPATH', ''), str(common.VERIF)) if x]), TQDM_DISABLE='1')
     p = subprocess.run(['/venv/bin/python', str(tool)], cwd=str(common.VERIF), capture_output=True, text=True,
                        timeout=1800, env=env)
     try:
